@@ -232,7 +232,8 @@ def payload_forms(ctx):
         ifs = [n for n in ast.walk(fi.node) if isinstance(n, ast.If) and "hexdigits" in ast.unparse(n.test)]
         node = ifs[0] if ifs else fi.node
         R.check("C05-D3 path before literal hex", not shadow, "a value naming an existing file is read even when the name looks like hex", mod=fi.module,
-                node=node.test if ifs else node, function=fq, expected="file test (or dict test) decides before the literal-hex test",
+                node=node.test if ifs else node, function=fq, construct="literal-hex test shadows the file test",
+                expected="file test (or dict test) decides before the literal-hex test",
                 found="the literal-hex test comes first: a file whose name consists of hex digits is embedded as those bytes, not read")
     # unknown -> ValueError
     rej = [x for x in outs if x.kind == "raise"]
